@@ -54,6 +54,7 @@ class Exec(ExprMixin, CallMixin, StmtMixin):
         self.effect_pre_state = None
         self.stmt_count = 0
         self.last_filter = None
+        self.lemma_instances = set()
         self._ctx_init()
         self.number_nodes(fn)
 
@@ -141,6 +142,10 @@ class Exec(ExprMixin, CallMixin, StmtMixin):
                     rec[a] = v
                 st.env[recv] = Val(st.env[recv].ty, rec)
             ctx = S.Ctx(st.env, old=self.old_ctx, result=res, loops=st.loops)
+            if hasattr(con, "lemmas"):
+                for label, f in con.lemmas(ctx):
+                    pc.append(f)
+                    self.lemma_instances.add(label)
             for label, f in con.ensures(ctx):
                 self.emit(Obligation("%s/%s/ensures[%s]" % (q, st.pathname(), label), pc, f, kind="ensures"))
             self.frame(st, pre_env, pc, "ensures")
